@@ -35,14 +35,14 @@ theorem verdict_meaning (w : Want) (line : List Char) (h : okBed12 w (some line)
       ∧ lastReach r.blockStarts r.blockSizes = some (r.«end» - r.start)
       ∧ r.thickStart ≤ r.thickEnd ∧ ((r.thickStart = 0 ∧ r.thickEnd = 0) ∨ (r.start ≤ r.thickStart ∧ r.thickEnd ≤ r.«end»))
       ∧ (blocksOf r).map (shiftUp w.off) = w.exons ∧ r.strand = w.strand ∧ r.name = w.name
-      ∧ r.chrom = w.chrom ∧ (cdsOf r).map (shiftUp w.off) = w.cds := by
+      ∧ r.chrom = w.chrom ∧ (cdsOf r).map (shiftUp w.off) = w.cds ∧ r.score = w.score ∧ r.rgb = w.rgb := by
   cases hd : decode line with
   | none => simp [okBed12, hd] at h
   | some r =>
     simp only [okBed12, hd] at h
     simp only [invariants, Bool.and_eq_true, Bool.or_eq_true, decide_eq_true_eq] at h
-    obtain ⟨⟨⟨⟨⟨⟨⟨⟨⟨⟨⟨⟨⟨⟨⟨i1, i2⟩, i3⟩, i4⟩, i5⟩, _⟩, i7⟩, i8⟩, i9⟩, c1⟩, c2⟩, _⟩, _⟩, c5⟩, c6⟩, c7⟩ := h
-    exact ⟨r, rfl, i1, i2, i3, i4, i5, i7, i8, i9, c6, c5, c2, c1, c7⟩
+    obtain ⟨⟨⟨⟨⟨⟨⟨⟨⟨⟨⟨⟨⟨⟨⟨i1, i2⟩, i3⟩, i4⟩, i5⟩, _⟩, i7⟩, i8⟩, i9⟩, c1⟩, c2⟩, c3⟩, c4⟩, c5⟩, c6⟩, c7⟩ := h
+    exact ⟨r, rfl, i1, i2, i3, i4, i5, i7, i8, i9, c6, c5, c2, c1, c7, c3, c4⟩
 
 /-- T1 (transcripts, chromosome coordinates): the code meets C14 on every interval of the domain. -/
 theorem tx_chromosome_mode (x : Iv) (score : Nat) (rgb : Nat × Nat × Nat) (sel : NameSel)
@@ -87,6 +87,55 @@ theorem repair_keeps_chromosome_mode (x : Iv) (score : Nat) (rgb : Nat × Nat ×
     txToBed12 x score rgb sel true = txToBed12Before x score rgb sel true := by
   unfold txToBed12 txToBed12Before txCore
   cases x.exons <;> rfl
+
+/-- the chrom, name, score, strand and colour columns are copied unchanged for EVERY interval and both modes (no
+    domain restriction); `str_decodes` reads them back -/
+theorem plain_columns (chromRel : Bool) (x : Iv) (score : Nat) (rgb : Nat × Nat × Nat) (sel : NameSel)
+    (b : Bed12) (h : txToBed12 x score rgb sel chromRel = some b) :
+    b.chrom = x.seqName ∧ b.name = selName x sel ∧ b.score = score ∧ b.strand = x.strand ∧ b.rgb = rgb :=
+  txCore_plain_columns true chromRel x score rgb sel b h
+
+/-- the non-coding convention: a transcript without CDS, and every feature, is written with thickStart = thickEnd = 0
+    (for EVERY interval and both modes).  This is the one place where the record's thick columns lie outside
+    [start, end]; `Spec.Bed.invariants` accepts exactly this pair and no other out-of-range pair. -/
+theorem noncoding_thick_zero (chromRel : Bool) (x : Iv) (score : Nat) (rgb : Nat × Nat × Nat) (sel : NameSel)
+    (hc : x.cds = none) (b : Bed12) (h : txToBed12 x score rgb sel chromRel = some b) :
+    b.thickStart = 0 ∧ b.thickEnd = 0 :=
+  txCore_noncoding_thick true chromRel x score rgb sel hc b h
+
+theorem feature_thick_zero (chromRel : Bool) (x : Iv) (score : Nat) (rgb : Nat × Nat × Nat) (sel : NameSel)
+    (b : Bed12) (h : featToBed12 x score rgb sel chromRel = some b) : b.thickStart = 0 ∧ b.thickEnd = 0 := by
+  unfold featToBed12 featCore at h
+  cases hex : x.exons with
+  | nil => rw [hex] at h; simp at h
+  | cons e0 erest =>
+    rw [hex] at h
+    cases chromRel with
+    | true => simp only [if_true, Option.some.injEq] at h; subst h; exact ⟨rfl, rfl⟩
+    | false =>
+      simp only [Bool.false_eq_true, if_false] at h
+      split at h
+      · simp only [Option.some.injEq] at h; subst h; exact ⟨rfl, rfl⟩
+      · simp at h
+
+/-- in the domain `wf` (non-empty blocks) nothing is dropped: the record has one block per exon in both modes -/
+theorem block_count_in_domain (chromRel : Bool) (x : Iv) (score : Nat) (rgb : Nat × Nat × Nat) (sel : NameSel)
+    (hwf : wf x = true) (b : Bed12) (h : txToBed12 x score rgb sel chromRel = some b) :
+    b.blockCount = x.exons.length ∧ b.blockSizes.length = x.exons.length ∧ b.blockStarts.length = x.exons.length :=
+  txCore_count true chromRel x score rgb sel hwf b h
+
+/-- an interval with a zero-length block is OUTSIDE the domain `wf`, deliberately: on a chunk parent the
+    chunk-relative location keeps only the blocks that overlap the window, so chunk-relative export silently drops
+    the zero-length block (2 blocks), while chromosome mode still writes it (3 blocks, one of size 0).  The model
+    mirrors this; the specification's domain is intervals whose blocks all have bases. -/
+def ivZ : Iv := ⟨[(20, 30), (35, 35), (40, 60)], .plus, none, some ['c'], some ['t'], none, .chunk 10 90⟩
+
+theorem zero_length_block_witness :
+    wf ivZ = false
+    ∧ (txToBed12 ivZ 0 (0, 0, 0) .symbol true).map (fun b => (b.blockCount, b.blockSizes)) = some (3, [10, 0, 20])
+    ∧ (txToBed12 ivZ 0 (0, 0, 0) .symbol false).map (fun b => (b.blockCount, b.blockSizes, b.blockStarts))
+        = some (2, [10, 20], [0, 20]) := by
+  decide
 
 /-- T3: the constructor's checks are what puts an interval into the domain (they give `thick ⊆ [start,end]`). -/
 theorem constructor_gives_domain (exons : List Blk) (st : Strand) (cds : Option (List Blk))
